@@ -41,8 +41,8 @@ def gen(rng, k):
             ops.append("%s_open %d %d" % (pre, i, 0 if fam6 else 1))
             opened.add(i); isbound.discard(i)
         elif x < 0.6:
-            if i in isbound:
-                continue
+            if i in isbound and r.random() < 0.7:
+                continue           # (a second bind of a bound socket is tried now and then: it must be refused)
             ips = net.nodes[node]
             choice = r.random()
             if choice < 0.3:
@@ -55,7 +55,7 @@ def gen(rng, k):
                 fam, a = r.choice([(0, A1 + 77), (0, net.nodes[3 - node][0][1])])
             port = r.choice([0, 0, 1, 80, 1023, 1024, 5000, 5000, 5001, 65530, 65534, 65535])
             ops.append("%s_bind %d %d %d %d" % (pre, i, fam, a, port))
-            isbound.add(i)      # conservative: never bind twice
+            isbound.add(i)
         elif x < 0.75:
             ops.append("%s_close %d" % (pre, i)); opened.discard(i); isbound.discard(i)
         elif x < 0.8:
@@ -134,9 +134,17 @@ def oracle(lines, trace):
                 del reg[proto][st["bound"]]
             st["bound"] = None
         if c.endswith("_open"):
-            release(); st["open"] = True; st["v4"] = op[2] == "1"
+            release(); st["open"] = True; st["v4"] = op[2] == "1"; st["autobound"] = False
         elif c.endswith("_close") or c.endswith("_destroy"):
-            release(); st["open"] = False
+            release(); st["open"] = False; st["autobound"] = False
+        elif c == "tcp_connect":
+            if not st["open"]:
+                st["open"] = True; st["v4"] = True              # async_connect opens the socket for the target's family
+            if st["v4"]:
+                st["autobound"] = True                          # ... and binds it
+        elif c == "udp_send":
+            if st["open"] and st["v4"]:
+                st["autobound"] = True
         elif c.endswith("_bind"):
             if e["ret"] is None:
                 continue
@@ -147,6 +155,8 @@ def oracle(lines, trace):
                 exp = 5
             elif (fam == 0) != st["v4"]:
                 exp = 10
+            elif st["bound"] is not None or st.get("autobound"):
+                exp = 11            # a socket has one name: the second bind is refused, the first binding stays
             else:
                 if a == 0:
                     cand = [ip for ip in ips if ip[0] == fam]
@@ -160,6 +170,8 @@ def oracle(lines, trace):
                 elif port == 0:
                     exp = None      # ephemeral: checked below
                     st["asked0"] = (got == 0)
+                    if got == 0:
+                        st["autobound"] = True
                 elif (addr, port) in reg[proto]:
                     exp = 7
                 else:
